@@ -242,7 +242,8 @@ class FakeDF:
                     n = len(v.values if isinstance(v, FakeSeries) else v)
                     break
             for k, v in data.items():
-                self.cols[k] = _col(v, n)
+                c = _col(v, n)
+                self.cols[k] = c.copy() if isinstance(c, np.ndarray) else c       # pandas copies the arrays of a dict
         self._index = None if index is None else np.asarray(index.values if isinstance(index, _Index) else index)
 
     @property
@@ -267,7 +268,8 @@ class FakeDF:
 
     def __setitem__(self, k, v):
         n = len(self) if self.cols else None
-        self.cols[k] = _col(v, n)
+        c = _col(v, n)
+        self.cols[k] = c.copy() if isinstance(c, np.ndarray) else c           # column assignment stores a copy: later in-place edits of `v` do not show
 
     def __contains__(self, k):
         return k in self.cols
